@@ -8,6 +8,7 @@ import (
 	"math"
 	"os"
 	"path/filepath"
+	"runtime"
 
 	R "github.com/Trisia/randomness"
 	"github.com/Trisia/randomness/detect"
@@ -226,6 +227,8 @@ func runC11(c *ev.Ctx) {
 }
 
 // ---------------- C15 ----------------
+
+func same2(p1, q1, p2, q2 float64) bool { return same(p1, p2) && same(q1, q2) }
 
 func same(a, b float64) bool {
 	return math.Float64bits(a) == math.Float64bits(b) || (math.IsNaN(a) && math.IsNaN(b))
@@ -599,6 +602,99 @@ func runC15(c *ev.Ctx) {
 		if !ok {
 			c.Violation(fmt.Sprintf("B2bit:%d", b), fmt.Sprintf("B2bit(%#x)=%v B2Byte(..)=%#x", b, bits, back), "b2bit", b)
 		}
+	}
+	// a caller is free to write to, and append to, the slices the library hands back; the library's later
+	// answers must not change because of that
+	{
+		for b := 0; b < 256; b++ {
+			var got []bool
+			guard(func() { got = R.B2bit(byte(b)) })
+			for i := range got {
+				got[i] = !got[i]
+			}
+			guard(func() { got = append(got, R.B2bit(byte(255-b))...); _ = append(got, true, false, true) })
+		}
+		sample := gen.NewRng(gen.Mix(seed, 1555)).Bytes(4000)
+		var arr []bool
+		guard(func() { arr = R.B2bitArr(sample) })
+		for i := range arr {
+			arr[i] = true
+		}
+		guard(func() { _ = append(arr[:8], make([]bool, 64)...) })
+		bad := 0
+		for b := 0; b < 256; b++ {
+			var bits []bool
+			guard(func() { bits = R.B2bit(byte(b)) })
+			want := gen.Unpack([]byte{byte(b)})
+			ok := len(bits) == 8
+			for i := 0; ok && i < 8; i++ {
+				if bits[i] != (want[i] == 1) {
+					ok = false
+				}
+			}
+			c.Eval(ev.HashStr(fmt.Sprintf("b2bit-after-mutation%d", b)), true)
+			if !ok && bad < 3 {
+				bad++
+				c.Violation(fmt.Sprintf("B2bit:%d:after-caller-wrote-to-returned-slice", b), fmt.Sprintf("B2bit(%#x)=%v after a caller had written to / appended to slices returned earlier", b, bits), "b2bit", b)
+			}
+		}
+		if probs, _ := evalEntryPoints(sample[:1250], c); len(probs) > 0 {
+			c.Violation("entrypoints:after-caller-wrote-to-returned-slices", probs[0], "entrypoints", epCase{})
+		}
+		c.Count("returned_slices_mutated_by_the_caller", 257)
+	}
+	// runtime settings changed while the process runs: GOMAXPROCS raised and lowered, then large inputs
+	// (1 MiB and more) through the byte entry points against the bit entry points on our own expansion
+	{
+		orig := runtime.GOMAXPROCS(0)
+		for gi, gm := range []int{2 * orig, 3, orig + 1, orig} {
+			runtime.GOMAXPROCS(gm)
+			if c.Lite() && gi > 1 {
+				continue
+			}
+			nb := []int{1 << 20, 1<<20 + 13, 1200007, 1<<21 + 5}[gi]
+			data := gen.NewRng(gen.Mix(seed, 1556, uint64(gi))).Bytes(nb)
+			want := gen.Bools(gen.Unpack(data))
+			var lib []bool
+			if p, m := guard(func() { lib = R.B2bitArr(data) }); p {
+				c.Violation(fmt.Sprintf("B2bitArr:%dB:GOMAXPROCS=%d:panic", nb, gm), m, "b2bit", nb)
+				continue
+			}
+			same := len(lib) == len(want)
+			for i := 0; same && i < len(want); i++ {
+				if lib[i] != want[i] {
+					same = false
+					c.Violation(fmt.Sprintf("B2bitArr:%dB:GOMAXPROCS=%d", nb, gm), fmt.Sprintf("B2bitArr of %d bytes differs from the MSB-first expansion at bit %d after GOMAXPROCS was changed from %d to %d inside the process", nb, i, orig, gm), "b2bit", nb)
+				}
+			}
+			type pair struct {
+				name string
+				a, b func() (float64, float64)
+			}
+			for _, pr := range []pair{
+				{"RunsTestBytes", func() (float64, float64) { return R.RunsTestBytes(data) }, func() (float64, float64) { return R.RunsTest(want) }},
+				{"RunsDistributionTestBytes", func() (float64, float64) { return R.RunsDistributionTestBytes(data) }, func() (float64, float64) { return R.RunsDistributionTest(want) }},
+				{"LongestRunOfOnesInABlockTestBytes", func() (float64, float64) { return R.LongestRunOfOnesInABlockTestBytes(data, true) }, func() (float64, float64) { return R.LongestRunOfOnesInABlockProto(want, true) }},
+				{"MonoBitFrequencyTestBytes", func() (float64, float64) { return R.MonoBitFrequencyTestBytes(data) }, func() (float64, float64) { return R.MonoBitFrequencyTest(want) }},
+				{"PokerTestBytes8", func() (float64, float64) { return R.PokerTestBytes(data, 8) }, func() (float64, float64) { return R.PokerProto(want, 8) }},
+				{"AutocorrelationTestBytes", func() (float64, float64) { return R.AutocorrelationTestBytes(data, 16) }, func() (float64, float64) { return R.AutocorrelationProto(want, 16) }},
+				{"CumulativeTestBytes", func() (float64, float64) { return R.CumulativeTestBytes(data, false) }, func() (float64, float64) { return R.CumulativeTest(want, false) }},
+				{"FrequencyWithinBlockTestBytes", func() (float64, float64) { return R.FrequencyWithinBlockTestBytes(data, 10000) }, func() (float64, float64) { return R.FrequencyWithinBlockProto(want, 10000) }},
+			} {
+				var p1, q1, p2, q2 float64
+				if p, m := guard(func() { p1, q1 = pr.a(); p2, q2 = pr.b() }); p {
+					c.Violation(fmt.Sprintf("%s:%dB:GOMAXPROCS=%d:panic", pr.name, nb, gm), m, "b2bit", nb)
+					continue
+				}
+				c.Count("entry_point_comparisons", 1)
+				c.Eval(ev.HashStr(fmt.Sprintf("gomaxprocs|%d|%d|%s", gm, nb, pr.name)), true)
+				if !same2(p1, q1, p2, q2) {
+					c.Violation(fmt.Sprintf("%s:%dB:GOMAXPROCS=%d", pr.name, nb, gm), fmt.Sprintf("%s gives (%v,%v), the bit entry point on the expansion (%v,%v), after GOMAXPROCS was changed from %d to %d inside the process", pr.name, p1, q1, p2, q2, orig, gm), "b2bit", nb)
+				}
+			}
+		}
+		runtime.GOMAXPROCS(orig)
+		c.Count("in_process_GOMAXPROCS_changes", 4)
 	}
 	// registry unchanged by everything above
 	if len(R.TestMethodArr) != len(before) {
